@@ -125,6 +125,11 @@ func genStages(repo string) (string, error) {
 		return "", err
 	}
 	fmt.Fprintf(&b, "def headerBatchCount : Nat := %d\n", env["headerBatchCount"])
+	if _, ok := env["pagesCache"]; !ok {
+		return "", fmt.Errorf("pagesCache not found next to headerBatchCount")
+	}
+	fmt.Fprintf(&b, "-- size of HeaderHashes' LRU page cache (headerhashes.go)\n")
+	fmt.Fprintf(&b, "def pagesCache : Nat := %d\n", env["pagesCache"])
 
 	bf, err := stgParse(repo, "pkg/core/blockchain.go")
 	if err != nil {
@@ -183,6 +188,67 @@ func genStages(repo string) (string, error) {
 	fmt.Fprintf(&b, "def resetSwitchOrder : List Nat := [%s]\n", stgValList(resetOrder, env))
 	fmt.Fprintf(&b, "def resetBlocksBatch : Nat := %d\n", batchSizes[0])
 	fmt.Fprintf(&b, "def resetItemsBatch : Nat := %d\n", batchSizes[1])
+
+	// tryRunGC: the calls of its guarded body, in order; the size of the block timestamp cache
+	var gcCalls []string
+	ast.Inspect(bf, func(n ast.Node) bool {
+		fd, ok := n.(*ast.FuncDecl)
+		if !ok || fd.Name.Name != "tryRunGC" {
+			return true
+		}
+		ast.Inspect(fd.Body, func(m ast.Node) bool {
+			ifs, ok := m.(*ast.IfStmt)
+			if !ok {
+				return true
+			}
+			var calls []string
+			ast.Inspect(ifs.Body, func(c ast.Node) bool {
+				if ce, ok := c.(*ast.CallExpr); ok {
+					if sel, ok := ce.Fun.(*ast.SelectorExpr); ok {
+						switch sel.Sel.Name {
+						case "removeOldTransfers", "GC", "removeUntraceableBlocks", "removeOldHeaderHashes":
+							calls = append(calls, sel.Sel.Name)
+						}
+					}
+				}
+				return true
+			})
+			if len(calls) > len(gcCalls) {
+				gcCalls = calls
+			}
+			return true
+		})
+		return false
+	})
+	if len(gcCalls) == 0 {
+		return "", fmt.Errorf("tryRunGC: no GC calls recognised")
+	}
+	for i := range gcCalls {
+		gcCalls[i] = strconv.Quote(gcCalls[i])
+	}
+	fmt.Fprintf(&b, "-- the collector calls of tryRunGC's guarded body, in order\n")
+	fmt.Fprintf(&b, "def gcCallOrder : List String := [%s]\n", strings.Join(gcCalls, ", "))
+	g = stgFindConst(bf, "defaultBlockTimesCache")
+	if g == nil {
+		return "", fmt.Errorf("defaultBlockTimesCache not found")
+	}
+	found := false
+	for _, sp := range g.Specs {
+		vs := sp.(*ast.ValueSpec)
+		for i, nm := range vs.Names {
+			if nm.Name == "defaultBlockTimesCache" && i < len(vs.Values) {
+				v, err := stgEval(vs.Values[i], 0, env)
+				if err != nil {
+					return "", fmt.Errorf("defaultBlockTimesCache: %w", err)
+				}
+				fmt.Fprintf(&b, "def blockTimesCache : Nat := %d\n", v)
+				found = true
+			}
+		}
+	}
+	if !found {
+		return "", fmt.Errorf("defaultBlockTimesCache has no literal value")
+	}
 
 	sf, err := stgParse(repo, "pkg/core/storage/store.go")
 	if err != nil {
